@@ -146,6 +146,9 @@ type Net struct {
 	// before Write returns. Inside a bubble both are virtual. They widen windows between a sender's checks and its
 	// write without creating schedules the transport could not produce (a write may take arbitrarily long).
 	WriteDelay func(class string) (pre, post time.Duration)
+	// CloseFails makes Close return an error after it has closed the transport: "broken" = on a broken link only,
+	// "always" = every time (a silent peer never completes a closing handshake).
+	CloseFails string
 	// DialStacks holds the stack of every dial attempt when DebugDial is set (development aid).
 	DebugDial  bool
 	DialStacks []string
@@ -621,6 +624,19 @@ func (c *Conn) Close() error {
 		c.l.mu.Unlock()
 		close(c.l.localClosed)
 	})
+	// CloseFails: the transport is closed, but Close reports an error when the link is already broken - what real
+	// transports do for a dead peer (a closing handshake cannot complete, a second Close reports already-closed).
+	switch c.l.net.CloseFails {
+	case "always":
+		return fmt.Errorf("memnet: closing handshake failed")
+	case "broken":
+		c.l.mu.Lock()
+		broken := c.l.mode != Healthy
+		c.l.mu.Unlock()
+		if broken {
+			return fmt.Errorf("memnet: closing handshake failed on a broken link")
+		}
+	}
 	return nil
 }
 
